@@ -12,13 +12,20 @@ Every theorem below quantifies over ALL operation sequences, i.e. all arrival or
 and duplicates) × all interleavings of the two threads × all sibling orders (`hint`) the
 implementation's hash maps may pick when orphans are released.
 
+Restarts of the node (stop in the middle of a delivery, start on the same database: `Chain.restart`,
+`Chain.rstep`) and the dead-pipeline state of finding F7 (`Chain.pstep`) are the subject of
+`Props/C01Restart.lean`; every theorem below about `Inv` / `Reachable` covers restarted nodes
+(`rreachable_reachable` there).
+
 What is NOT in these theorems: real thread schedules of the Rust code (the model's atomic-step
 granularity is argued in Model/Chain.lean, and sampled by the harness' burst mode); panics of the
-pipeline threads: the model has no panic state, and finding F7 (confirmed on the real code by the
-harness, see known_findings.txt: a second queued copy of a block whose first copy failed
-verification and was deleted makes `get_block(..).expect(..)` panic in the verify or the preload
-thread, after which nothing is verified any more) is exactly a behaviour the model does not have —
-in the model the second copy simply fails again; the sync layer's `HeaderMap`; `truncate`.
+pipeline threads: the step function `step` these theorems are about has no panic state, and finding F7
+(confirmed on the real code by the harness, see known_findings.txt: a second queued copy of a block
+whose first copy failed verification and was deleted makes `get_block(..).expect(..)` panic in the
+verify or the preload thread, after which nothing is verified any more) is exactly a behaviour `step`
+does not have — there the second copy simply fails again (`Props/C01Restart.lean`: `panic_reachable`,
+`not_no_panic_reachable` about `pstep`, and `no_panic_first_deliveries_partial`: the two step functions
+agree on every history without a second delivery of a block); the sync layer's `HeaderMap`; `truncate`.
 -/
 namespace CkbVerif.C01
 open CkbVerif.Chain CkbVerif.Gen.Chain
